@@ -14,6 +14,7 @@ import Ivg.Gen.Tie.Code.Encoder4
 import Ivg.Gen.Tie.Code.Encoder5
 import Ivg.Gen.Tie.Code.Encoder6
 import Ivg.Gen.Tie.Code.GenGrad
+import Ivg.Gen.Tie.Code.Encoder7
 import Ivg.Obligations
 /-!
 # C07 — selector clause: the Encoder and the Renderer report the same CSEL / NSEL
@@ -303,4 +304,5 @@ end Ivg.Props.C07
   Ivg.Gen.Tie.wfEnc_runOps,
   -- regenerated code (translator): the Generator helper that reads the selectors back
   Ivg.Gen.Tie.setGradient_code_tie,
-  Ivg.Gen.Tie.setGradient_selectors_restored]
+  Ivg.Gen.Tie.setGradient_selectors_restored,
+  Ivg.Gen.Tie.scratch_readback, Ivg.Gen.Tie.setNReg_code_tie, Ivg.Gen.Tie.setNReg_code_tie_state]
